@@ -373,6 +373,9 @@ class Interp:
             i = idx[0] if isinstance(idx, tuple) else idx
             base[i] = v
             return
+        if hasattr(base, "sa_store"):
+            base.sa_store(self, idx, v, st, ms)
+            return
         if isinstance(base, Opaque):
             self.trace.append(Op("ExtStore", obj=base, index=idx, value=v, where=self.where(st, ms)))
             return
@@ -459,6 +462,8 @@ class Interp:
     def st_With(self, st, scope, ms):
         for item in st.items:
             v = self.eval(item.context_expr, scope, ms)
+            if hasattr(v, "sa_enter"):
+                v = v.sa_enter()
             if item.optional_vars is not None:
                 self.assign(item.optional_vars, v, scope, ms, st)
         self.exec_block(st.body, scope, ms)
@@ -530,6 +535,8 @@ class Interp:
         for x in elts:
             if isinstance(x, ast.Starred):
                 v = self.eval(x.value, scope, ms)
+                if isinstance(v, Arr) and v.ndim == 1 and isinstance(simplify_scalar(v.shape[0]), int):
+                    v = self.unpack(v, simplify_scalar(v.shape[0]), x, ms)
                 if not isinstance(v, (tuple, list)):
                     raise Unsupported("starred non-sequence")
                 out.extend(v)
@@ -595,6 +602,8 @@ class Interp:
             return Opaque("compile", obj)
         if isinstance(obj, Opaque):
             return self.ext.opaque_attr(obj, attr, e, ms)
+        if hasattr(obj, "sa_getattr"):
+            return obj.sa_getattr(self, attr, e, ms)
         if isinstance(obj, (list, dict, str, tuple)):
             return Opaque("pymethod", (obj, attr))
         if isinstance(obj, DType):
@@ -621,7 +630,7 @@ class Interp:
         if isinstance(base, Ext) and base.path == "pystencils.make_slice":
             idx = self.eval_index(e.slice, scope, ms)
             return Opaque("make_slice", idx)
-        if isinstance(base, (Ext, Opaque)) and not (isinstance(base, Opaque) and base.tag in ("h5", "h5group", "h5attrs", "extobj")):
+        if isinstance(base, (Ext, Opaque)) and not hasattr(base, "sa_index") and not (isinstance(base, Opaque) and base.tag in ("extobj",)):
             # typing generics such as tuple[int, ...], Literal[...]
             return Opaque("generic", ast.unparse(e))
         idx = self.eval_index(e.slice, scope, ms)
@@ -677,6 +686,8 @@ class Interp:
             if k not in base:
                 raise RaisedInAnalysed("KeyError", repr(k), self.where(e, ms))
             return base[k]
+        if hasattr(base, "sa_index"):
+            return base.sa_index(self, idx, e, ms)
         if isinstance(base, Opaque):
             return self.ext.opaque_index(base, idx, e, ms)
         raise Unsupported("subscript of %r at %s" % (base, self.where(e, ms)))
@@ -923,6 +934,9 @@ class Interp:
                 a = simplify_scalar(a)
                 r = any(self.py_equal(a, x) for x in b) if not isinstance(b, str) else (a in b)
                 return r if name == "In" else not r
+            if hasattr(b, "sa_contains"):
+                r = b.sa_contains(self, a)
+                return r if name == "In" else not r
             if isinstance(b, Opaque):
                 return self.ext.opaque_contains(b, a, name == "In", e, ms)
             raise Unsupported("membership in %r" % (b,))
@@ -991,6 +1005,14 @@ class Interp:
                     return True
                 if d.is_leaf() and d.leaf.is_const():
                     return False
+                if d.is_leaf() and d.leaf.is_poly():
+                    from .extlib import ExtLib
+                    ats = d.leaf.all_atoms()
+                    if ats and all(a[0] == "s" and a[1] in ExtLib.INT_SYMBOLS for a in ats):
+                        # symbolic sizes / counts are generic: they differ from every constant and from each other
+                        # (the special values are analysed as separate concrete cases)
+                        self.generic_size_decisions = getattr(self, "generic_size_decisions", 0) + 1
+                        return False
                 c = Cond(d.leaf, ">") if d.is_leaf() else None
                 if c is not None:
                     from .signs import sign_of_poly
@@ -1062,6 +1084,8 @@ class Interp:
                 self.kernels.append(k)
                 return k
             return self.ext.call_opaque(fn, args, kwargs, node, ms)
+        if hasattr(fn, "sa_call"):
+            return fn.sa_call(self, args, kwargs, node, ms)
         if fn is None:
             raise RaisedInAnalysed("TypeError", "'NoneType' object is not callable", self.where(node, ms))
         raise Unsupported("call of %r at %s" % (fn, self.where(node, ms)))
@@ -1109,6 +1133,9 @@ class Interp:
         return bound
 
     def call_func(self, fn, args, kwargs, node, ms, bound=None):
+        if fn.node.name in getattr(self, "skip_functions", ()):
+            self.trace.append(Op("Skipped", fn=fn, where=self.where(node, ms) if node is not None else "?"))
+            return None
         if self.call_depth > 60:
             raise Unsupported("call depth exceeded (recursion?) at %s" % self.where(node, ms))
         b = self.bind_args(fn, args, kwargs, node, ms)
